@@ -45,6 +45,7 @@ WHAT = {
 FIELDS = ("st", "src", "mode", "dim", "pa", "mag", "yml", "facts", "ment")
 
 YV_MAIN = ["11110", "10110", "11010", "11100", "01100"]          # hdr dim pa calc mag
+YV_ALL = ["1%d%d%d0" % (a, b, c) for a in (1, 0) for b in (1, 0) for c in (1, 0)] + ["0%d%d00" % (a, b) for a in (1, 0) for b in (1, 0)]
 FL_OP = ('FL(a, b, c, d, e, x) == ("POSCAR" :> a) @@ ("unitcell.in" :> b) @@ (Disp :> c) @@ (Phy :> d) @@ (Params :> e)'
          ' @@ (CellX :> x)\n'
          'YV(s) == [hdr |-> s[1] = 1, dim |-> s[2] = 1, pa |-> s[3] = 1, calc |-> s[4] = 1, mag |-> s[5] = 1]\n')
@@ -54,7 +55,6 @@ Adm(x) ==
   /\ (x.name # Params /\ x.name # "none" /\ x.name # CellX) => FALSE
   /\ (~x.load /\ x.calc # "none" /\ x.name # "none") => x.fl[x.name] \in {"none", Fmt(x.calc)}
   /\ (~x.load /\ x.calc = "vasp" /\ x.name = "none") => x.fl["POSCAR"] # "junk"
-  /\ (x.load /\ x.name # "none") => x.fl[x.name] # "none"
 '''
 
 
@@ -278,11 +278,7 @@ def run(ctx):
     t0 = time.time()
     rng = ctx.rng
     procs = 6
-    if ctx.quick:
-        others = YV_MAIN[1:]
-        yvs = [YV_MAIN[0], others[int(ctx.seed) % len(others)]]
-    else:
-        yvs = YV_MAIN
+    yvs = YV_MAIN if ctx.quick else YV_ALL
     rows = {}
     rows.update(model(ctx, "main", family_main(yvs), 8))
     rows.update(model(ctx, "settings", family_settings(), 4))
@@ -305,11 +301,7 @@ def run(ctx):
     for k in rows:
         groups.setdefault("|".join(k.split("|")[:7]), []).append(k)
     gkeys = sorted(groups)
-    if ctx.quick:
-        n = min(len(gkeys), 420)
-        pick = set(rng.sample(gkeys, n))
-    else:
-        pick = set(gkeys)
+    pick = set(gkeys)
     keys = set(k for g in pick for k in groups[g])
     keys |= set(rows[k]["cleared"] for k in list(keys))            # closed under removal of the irrelevant files
     missing = [k for k in keys if k not in rows]
@@ -329,8 +321,19 @@ def run(ctx):
     evk = sorted(got)
     cap = 6000 if ctx.quick else 24000
     if len(evk) > cap:
-        must = [k for k in evk if got[k][1]["st"] == "exc" or k[1] == "main"]
-        rest = [k for k in evk if not (got[k][1]["st"] == "exc" or k[1] == "main")]
+        must, per = [], {}
+        for k in evk:                      # every kind of traceback and every whole-command run is judged by TLC
+            o = got[k][1]
+            if o["st"] == "exc":
+                c = (k[1], o["msg"].split(":")[0])
+                per[c] = per.get(c, 0) + 1
+                if per[c] <= 300:
+                    must.append(k)
+            elif k[1] == "main":
+                must.append(k)
+        mset = set(must)
+        rest = [k for k in evk if k not in mset and got[k][1]["st"] != "exc"]
+        ctx.extra["tracebacks(layer,exception)"] = {"%s:%s" % c: n for c, n in sorted(per.items())}
         evk = sorted(must + rng.sample(rest, max(0, cap - len(must))))
     nev, fails = validate(ctx, rows, got, evk)
     ctx.extra["trace_events"] = nev
@@ -345,6 +348,5 @@ def run(ctx):
                            "is_file_phonopy_yaml return on the small real files of harness/x09_world.py; formats are C17's")
     ctx.assumptions.append("documented deviations (docstring of collect_cell_info) are excepted by name in the requirement and counted: "
                            "DevNameDropped, DevDimIgnored, DevCalcIgnored")
-    ctx.assumptions.append("worlds where a calculator reader would be handed a file of another format, and phonopy-load with a named "
-                           "file that does not exist (collect_cell_info raises FileNotFoundError; the command itself checks the "
-                           "first argument before), are outside the enumerated families")
+    ctx.assumptions.append("worlds where a calculator reader would be handed a file of another format (C17's readers raise) are "
+                           "outside the enumerated families")
